@@ -277,4 +277,19 @@ theorem restarted_chain_starts_quiescent (hc : CfgOK cfg p) {s : State} (hr : Re
     obtain ⟨a1, a2, _⟩ := prep_ctxs s hnp c x ((mem_entries _ _ _).mp hm)
     exact ⟨a1, a2⟩
 
+/-- **Any number of restarts.** On a chain that has gone through any number of zero-height restarts, at arbitrary
+    heights and times and with any well-formed operations in between (`ReachableR`), every state satisfies every state
+    invariant — in particular the backing equations of C01 and C03 —, every further restart succeeds, and the genesis
+    exported after a preparation is always valid. -/
+theorem chain_with_restarts_keeps_invariants (hc : CfgOK cfg p) {s : State} (hr : ReachableR cfg p h0 t0 s) :
+    Inv s ∧
+    balOf s.bank.bal s.cfg.escrow = activeFees s + earnedSum s ∧
+    balOf s.bank.bal s.cfg.deposit = depositSum s ∧
+    validateG (exportG (prep s).s) = true ∧
+    ∀ height time, (restart s height time).isSome := by
+  have hall := reachableR_invAll hc hr
+  refine ⟨hall.inv, ?_, hall.inv.b.backed, validate_after_prep_of hall.inv hall.earn hall.recs hall.ctxf,
+    fun height time => reachableR_restart_succeeds hc hr height time⟩
+  rw [activeFees_eq]; exact hall.inv.m.escrow
+
 end SM.C19
